@@ -302,6 +302,30 @@ def refsResolve (c : NContent) : Bool :=
   | .ok s => (genMxlpy s).refsOk
   | .error _ => false
 
+/-! ### the same hypothesis on the input alone -/
+
+/-- every function slot of the model with the key the generator files its definition under, in the
+    order the generator fills its `functions` dict -/
+def entries (c : NContent) : List (String × Use) :=
+  let taken := c.derived.map (fun kv => (c.pyfn kv.2.fid).name)
+    ++ c.rxns.map (fun kv => (c.pyfn kv.2.rate.fid).name)
+  (c.vars.filterMap fun kv => match kv.2 with
+      | .ia u => some (freeName taken ("init_" ++ (c.pyfn u.fid).name), u) | .plain _ => none)
+  ++ (c.pars.filterMap fun kv => match kv.2 with
+      | .ia u => some (freeName taken ("init_" ++ (c.pyfn u.fid).name), u) | .plain _ => none)
+  ++ c.derived.map (fun kv => ((c.pyfn kv.2.fid).name, kv.2))
+  ++ c.rxns.flatMap fun kv => ((c.pyfn kv.2.rate.fid).name, kv.2.rate) ::
+      kv.2.stoich.filterMap fun vc => match vc.2 with
+        | .dyn u => some (freeName taken (kv.1 ++ "_stoich_" ++ (c.pyfn u.fid).name), u) | .num _ => none
+
+/-- no key is shared by two different function objects (excludes F-C11-1) -/
+def keysInjective (c : NContent) : Bool :=
+  (entries c).all fun e1 => (entries c).all fun e2 => e1.1 != e2.1 || e1.2.fid == e2.2.fid
+
+/-- no component passes the same model name twice to its function (excludes F-C11-2; slightly stronger than
+    needed: only the last use under each key matters) -/
+def argsNoDup (c : NContent) : Bool := (entries c).all fun e => !hasDup e.2.args
+
 /-- pad / truncate an argument list to the function's arity -/
 def fit : Nat → List Rat → List Rat
   | 0, _ => []
